@@ -14,7 +14,7 @@ from pyvc import library
 
 from wntr.sim.core import WNTRSimulator
 
-P = ["C05", "C04", "C16", "C10"]
+P = ["C05", "C04", "C16", "C10", "C11"]
 K = 3
 
 
@@ -113,12 +113,13 @@ def _managers_case():
     tank-level, check-valve, pump and valve controls - so that at equal priority the simulator's protection acts last (stable priority sort, see above)"""
     def build(cx):
         T = _ControlType
-        user = [("u1", C("user_presolve", T.presolve)), ("u2", C("user_rule", T.rule)), ("u3", C("user_postsolve", T.postsolve)), ("u4", C("user_pre_and_post", T.pre_and_postsolve))]
+        # registered under names whose alphabetical order is not the registration order
+        user = [("zeta", C("user_presolve", T.presolve)), ("alpha", C("user_rule", T.rule)), ("mu", C("user_postsolve", T.postsolve)), ("beta", C("user_pre_and_post", T.pre_and_postsolve))]
         tank = [C("tank_presolve", T.presolve), C("tank_postsolve", T.postsolve)]
         cv = [C("cv_postsolve", T.postsolve)]
         pump = [C("pump_postsolve", T.postsolve), C("pump_feasibility", T.feasibility)]
         valve = [C("valve_postsolve", T.postsolve), C("valve_feasibility", T.feasibility)]
-        wn = types.SimpleNamespace(controls=lambda: list(user))
+        wn = types.SimpleNamespace(controls=lambda: list(user), control_name_list=[n for n, _ in user], get_control=lambda n: dict(user)[n], num_controls=len(user))
         sim = cx.obj(WNTRSimulator, _wn=wn)
         m = cx.interp.models
         m.register(WNTRSimulator._get_all_tank_controls, lambda i, a, k: list(tank), verified_by="contracts/c06_tanks.py")
